@@ -208,3 +208,168 @@ def diverges(e):
     if k == "match":
         return bool(e["arms"]) and all(diverges(a["body"]) for a in e["arms"])
     return False
+
+
+# ---------------------------------------------------------------------------
+# table extraction
+
+def pat_desc(pat):
+    """Canonical, position-free descriptor of a pattern using the last two
+    path segments (Enum::Variant)."""
+    k = pat.get("k")
+    if k == "or":
+        return "|".join(pat_desc(p) for p in pat["pats"])
+    if k == "wild":
+        return "_"
+    if k == "bind":
+        if "sub" in pat:
+            return pat_desc(pat["sub"])
+        return "_"
+    if k == "pref":
+        return pat_desc(pat["pat"])
+    if k == "ppath":
+        return tail2(res_def(pat) or "?")
+    if k == "pts":
+        inner = ",".join(pat_desc(p) for p in pat["pats"])
+        return "%s(%s)" % (tail2(res_def(pat) or "?"), inner)
+    if k == "pstruct":
+        inner = ",".join("%s:%s" % (f[0], pat_desc(f[1])) for f in pat["fields"])
+        return "%s{%s}" % (tail2(res_def(pat) or "?"), inner)
+    if k == "ptuple":
+        return "(" + ",".join(pat_desc(p) for p in pat["pats"]) + ")"
+    if k == "plit":
+        return "lit:%r" % (pat.get("v"),)
+    if k == "prange":
+        return "range"
+    return "?" + str(k)
+
+
+def pat_alternatives(pat):
+    """Top-level or-alternatives of a pattern as descriptors."""
+    k = pat.get("k")
+    if k == "or":
+        out = []
+        for p in pat["pats"]:
+            out.extend(pat_alternatives(p))
+        return out
+    if k == "pref":
+        return pat_alternatives(pat["pat"])
+    if k == "bind" and "sub" in pat:
+        return pat_alternatives(pat["sub"])
+    return [pat_desc(pat)]
+
+
+def short_result(e):
+    d = result_desc(e)
+    if isinstance(d, str) and "::" in d:
+        suffix = ""
+        for s in ("(..)", "{..}"):
+            if d.endswith(s):
+                suffix = s
+                d = d[: -len(s)]
+        return tail2(d) + suffix
+    return d
+
+
+def table(match_node):
+    rows = []
+    for arm in match_node["arms"]:
+        rows.append({
+            "alts": pat_alternatives(arm["pat"]),
+            "guard": arm.get("guard"),
+            "body": arm["body"],
+            "result": short_result(arm["body"]),
+            "line": arm.get("line"),
+            "pat": arm["pat"],
+        })
+    return rows
+
+
+def find_match_on(body_hir, variant_substr, min_arms=2):
+    """Matches whose arm patterns mention `variant_substr` in at least
+    min_arms arms."""
+    out = []
+    for m in nodes(body_hir, "match"):
+        n = 0
+        for arm in m["arms"]:
+            if any(variant_substr in a for a in pat_alternatives(arm["pat"])):
+                n += 1
+        if n >= min_arms:
+            out.append(m)
+    return out
+
+
+class LocalDefs:
+    """Binding sites of HIR locals inside one body: local id ->
+    (pattern node, init expr or None, path inside the pattern)."""
+
+    def __init__(self, body_hir):
+        self.defs = {}
+        self.roots = {}
+        self.root = None
+        for n in walk(body_hir):
+            k = n.get("k")
+            if k in ("letstmt", "let") and n.get("pat") is not None:
+                self.root = n["pat"]
+                self._bind(n["pat"], n.get("init"), ())
+            elif k == "match":
+                for arm in n["arms"]:
+                    self.root = arm["pat"]
+                    self._bind(arm["pat"], n["e"], ("arm",))
+        for p in body_hir.get("params", []) if isinstance(body_hir, dict) else []:
+            self.root = p
+            self._bind(p, None, ("param",))
+
+    def _bind(self, pat, init, path):
+        k = pat.get("k")
+        if k == "bind":
+            self.defs[pat["local"]] = (pat, init, path)
+            self.roots[pat["local"]] = self.root
+            if "sub" in pat:
+                self._bind(pat["sub"], init, path)
+        elif k in ("ptuple", "pts"):
+            for i, p in enumerate(pat["pats"]):
+                self._bind(p, init, path + (i,))
+        elif k == "pstruct":
+            for f in pat["fields"]:
+                self._bind(f[1], init, path + (f[0],))
+        elif k == "pref":
+            self._bind(pat["pat"], init, path)
+        elif k == "or":
+            for p in pat["pats"]:
+                self._bind(p, init, path)
+        elif k == "pslice":
+            for i, p in enumerate(pat["before"]):
+                self._bind(p, init, path + (i,))
+
+    def get(self, local):
+        return self.defs.get(local)
+
+    def root_pat(self, local):
+        """The whole pattern in which a local is bound."""
+        return self.roots.get(local)
+
+
+def local_origin(ld, e, depth=0):
+    """Origin of an expression through let-bindings: returns a tuple
+    ('local', name, id, path) for a root binding (param / pattern binding
+    without initialiser expression to follow), or ('expr', node)."""
+    e = peel_refs(e)
+    if not isinstance(e, dict) or depth > 20:
+        return ("expr", e)
+    if e.get("k") == "path":
+        l = res_local(e)
+        if l is not None:
+            d = ld.get(l)
+            name = e["res"]["name"]
+            if d is None:
+                return ("local", name, l, ())
+            pat, init, path = d
+            if init is None or (path and path[0] == "arm"):
+                return ("local", name, l, path)
+            if path == ():
+                return local_origin(ld, init, depth + 1)
+            # element of a destructured initialiser: keep position
+            sub = local_origin(ld, init, depth + 1)
+            return ("proj", sub, path, name)
+    return ("expr", e)
